@@ -147,12 +147,18 @@ class TSeq(T):
         self.name = 'Seq[%s]' % elem.name
 
     def fresh(self, base, facts=None):
-        n = z3.Int(fresh_name(base + '.len'))
         a = z3.Const(fresh_name(base + '.arr'),
                      z3.ArraySort(z3.IntSort(), self.elem.sort()))
+        if FIXED_SEQ_LEN[0] is not None:
+            # refutation mode: concrete length, symbolic elements
+            return SSeq(z3.IntVal(FIXED_SEQ_LEN[0]), a, self.elem)
+        n = z3.Int(fresh_name(base + '.len'))
         if facts is not None:
             facts.append(n >= 0)
         return SSeq(n, a, self.elem)
+
+
+FIXED_SEQ_LEN = [None]
 
 
 class TOpt(T):
@@ -174,6 +180,17 @@ class TMap(T):
         val = z3.Const(fresh_name(base + '.val'),
                        z3.ArraySort(self.key.sort(), self.val.sort()))
         return SMap(dom, val, self.key, self.val)
+
+
+class TSet(T):
+    def __init__(self, elem):
+        self.elem = elem
+        self.name = 'Set[%s]' % elem.name
+
+    def fresh(self, base, facts=None):
+        a = z3.Const(fresh_name(base + '.set'),
+                     z3.ArraySort(self.elem.sort(), z3.BoolSort()))
+        return SSet(a, self.elem)
 
 
 class TFunc(T):
@@ -278,6 +295,27 @@ class SMap(Sym):
 
     def __repr__(self):
         return 'SMap'
+
+
+class SSet(Sym):
+    """A set as its characteristic array (mutable cell: `arr` is replaced
+    by add/update)."""
+
+    def __init__(self, arr, elem):
+        self.arr, self.elem = arr, elem
+
+    def has(self, v):
+        return z3.Select(self.arr, self.elem.unwrap(v))
+
+    def __repr__(self):
+        return 'SSet'
+
+
+def empty_set(elem):
+    return SSet(z3.K(elem.sort(), z3.BoolVal(False)), elem)
+
+
+py_in = z3.Function('py.in', Val, Val, z3.BoolSort())    # item in container
 
 
 class SFunc(Sym):
